@@ -63,6 +63,7 @@ def gen_track(pl, seed, nsparse, runs, runlen, nsec):
         try:
             from pymeeus.Epoch import Epoch
             L, B, R = _pos(pl, t)
+            _cls(pl).orbital_elements_j2000(Epoch(t))        # the other element set asked for first: it must not colour this one
             ll, a, ecc, inc, node, arg = _cls(pl).orbital_elements_mean_equinox(Epoch(t))
             yield {"k": "p", "pl": pl, "tf": t, "t": fx(t), "L": fx(L), "B": fx(B), "R": fx(R), "Lf": L,
                    "a": fx(a), "ecc": fx(ecc), "inc": fx(abs(float(inc)))}
@@ -146,7 +147,11 @@ def gen_cor(pl, seed, n):
             La0 = apparent_vsop_pos(Epoch(t), m.VSOP87_L, m.VSOP87_B, m.VSOP87_R, nutation=False)[0]
         dpsi = float(nutation_longitude(Epoch(t)))
         L0f = float(L0)
-        yield {"k": "cor", "pl": pl, "tf": t, "L0": fx(L0f), "Lf": fx(_near(float(Lf), L0f)), "B0": fx(float(B0)), "Bf": fx(float(Bf)),
+        # witnesses for the documented FK5 conversion (Meeus 32.3): L' = L - 1.397 T - 0.00031 T^2
+        T = (t - 2451545.0) / 36525.0
+        Lp = L0f - 1.397 * T - 0.00031 * T * T
+        yield {"k": "cor", "T": fx(T), "Lp": fx(Lp), "cLp": fx(math.cos(math.radians(Lp))), "sLp": fx(math.sin(math.radians(Lp))),
+               "tB": fx(math.tan(math.radians(float(B0)))), "pl": pl, "tf": t, "L0": fx(L0f), "Lf": fx(_near(float(Lf), L0f)), "B0": fx(float(B0)), "Bf": fx(float(Bf)),
                "La0": fx(_near(float(La0), L0f)), "La1": fx(_near(float(La1), L0f)), "dpsi": fx(dpsi), "R": fx(float(R))}
 
 
